@@ -198,6 +198,9 @@ def unary_ref_check(c):
     return "holds", ""
 
 
+SOFTMAX_FAR = [False]
+
+
 def softmax_props(c):
     """C09 softmax clause, checked on the implementation's output alone: along the requested axis every
     Softmax slice is non-negative and sums to 1, LogSoftmax is its logarithm, finite inputs give finite
@@ -226,13 +229,19 @@ def softmax_props(c):
             lane = [ys[(o * n + k) * inner + i] for k in range(n)]
             if not all(math.isfinite(v) for v in lane_x):
                 continue
+            # gorgonia anchors every lane on the first element of the whole tensor: far from the lane's own
+            # maximum the exponentials over- or underflow (recorded finding); near it nothing may go wrong
+            far = math.isfinite(xs[0]) and abs(xs[0] - max(lane_x)) > 60
+            SOFTMAX_FAR[0] = far
             if c["op"] == "Softmax":
                 if any((not math.isfinite(v)) or v < 0 for v in lane):
                     return "violates", f"Softmax slice not finite/non-negative for finite input {lane_x[:4]} -> {lane[:4]}"
                 if abs(sum(lane) - 1) > tol:
                     return "violates", f"Softmax slice sums to {sum(lane)}"
             else:
-                if any(math.isnan(v) or v == math.inf or v > 1e-6 for v in lane):
+                # rounding of log(sum exp(x - anchor)): relative to the magnitudes involved
+                pos = (1e-6 if x["dt"] == "f32" else 1e-14) * max(1.0, abs(xs[0]) if math.isfinite(xs[0]) else 1.0, max(abs(v) for v in lane_x))
+                if any(math.isnan(v) or v == math.inf or v > pos for v in lane):
                     return "violates", f"LogSoftmax not finite / positive for finite input {lane_x[:4]} -> {lane[:4]}"
                 if abs(sum(math.exp(min(v, 0.0)) for v in lane) - 1) > tol:
                     return "violates", f"exp(LogSoftmax) slice sums to {sum(math.exp(v) for v in lane)}"
@@ -296,6 +305,13 @@ def judge_op(c):
     if verdict != "violates" and impl.get("reuse"):
         verdict, what = "violates", "a re-used operator instance answers differently after " + "; ".join(impl["reuse"])[:200]
         return J(corr=corr, verdict=verdict, tag="instance_reuse." + str(c.get("op")), what=what, key=key)
+    if verdict == "violates" and c.get("op") in ("Softmax", "LogSoftmax") and impl["status"] == "ok" and not guard:
+        # finer tags: the recorded first-element-anchor finding only ever shows as a non-finite result
+        sub = "not_finite_for_finite_input" if ("not finite" in what) else ("slice_sum" if "sums to" in what else None)
+        if sub and SOFTMAX_FAR[0]:
+            sub = "first_element_far_from_lane_maximum"
+        if sub:
+            return J(corr=corr, verdict=verdict, tag=f"{c['op'].lower()}.{sub}.wrong", what=what, key=key)
     tag = None
     if verdict == "violates":
         cls = "panic" if impl["status"] == "panic" else ("error" if impl["status"] == "error" else
